@@ -124,7 +124,7 @@ func c02b(c *Ctx) {
 			var plain, strict bool
 			for i, e := range ph.Edges {
 				s, _ := strConst(e)
-				must := c.mustLits(fn, ph.Block().Preds[i])
+				must := c.edgeMust(fn, ph.Block().Preds[i], ph.Block())
 				if s == "compare_var_to_value" && hasLit(must, "+($1.operatorExpression.ComparisonValueType == 1)") {
 					strict = true
 				}
@@ -424,7 +424,7 @@ func c02e(c *Ctx) {
 			if isPhi && isAlloc {
 				var keep, fresh bool
 				for i, e := range ph.Edges {
-					must := c.mustLits(fn, ph.Block().Preds[i])
+					must := c.edgeMust(fn, ph.Block().Preds[i], ph.Block())
 					et := c.term(fn, e)
 					if et == "$5" && !hasLit(must, "+($5 == -1)") {
 						keep = true
@@ -576,7 +576,7 @@ func c02f(c *Ctx) {
 			var plain, neg bool
 			for i, e := range ph.Edges {
 				et := c.term(fn, e)
-				must := c.mustLits(fn, ph.Block().Preds[i])
+				must := c.edgeMust(fn, ph.Block().Preds[i], ph.Block())
 				if et == "$0.curToken.Type" && !hasLit(must, "+$3") {
 					plain = true
 				}
@@ -704,7 +704,7 @@ func c02h(c *Ctx) {
 				okPlain, okFlip, okOther := false, false, true
 				for i, e := range ph.Edges {
 					pred := ph.Block().Preds[i]
-					must := c.mustLits(be, pred)
+					must := c.edgeMust(be, pred, ph.Block())
 					et := c.term(be, e)
 					switch {
 					case et == "$2" && hasLit(must, `+($0.peekToken.Type == "(")`):
